@@ -229,7 +229,7 @@ func c10Auth(c *hx.Ctx, in, payload []byte, class string) {
 	}
 	// a plain io.Reader (no ReadByte, like a file or a network stream) and readers that portion the
 	// data differently: exactly 16+dwLength bytes may be taken from the caller's reader
-	for ri, mk := range []func(io.Reader) io.Reader{func(r io.Reader) io.Reader { return struct{ io.Reader }{r} }, iotest.OneByteReader, iotest.DataErrReader} {
+	for ri, mk := range []func(io.Reader) io.Reader{func(r io.Reader) io.Reader { return struct{ io.Reader }{r} }, iotest.OneByteReader, iotest.DataErrReader, PausingReader, LongPausingReader} {
 		under := bytes.NewReader(full)
 		var v4 *signature.EFIVariableAuthentication2
 		if p := hx.Try(func() { v4, err = signature.ReadEFIVariableAuthencation2(mk(under)) }); p != nil || err != nil {
